@@ -49,9 +49,15 @@ def img_allowed(U, ft, fs_, rename, q):
 
 def _mgr(names, oi, masks=None):
     U = Universe(names)
+    oi, hist = sweep.split_oi(oi)
     order = sweep.orders(names)[oi]
-    m = S.new_bdd(order)
-    refs, b = sweep.build_all(m, U, masks, hold=True)
+    if hist:
+        # a manager with a history (numbers re-used, nodes rewritten in place by swaps)
+        m, refs = sweep.make_history(hist, order, U, masks)
+        b = sweep.Builder(m, U)
+    else:
+        m = S.new_bdd(order)
+        refs, b = sweep.build_all(m, U, masks, hold=True)
     inv = {}
     for f, r in refs.items():
         inv[r] = f
@@ -595,13 +601,16 @@ def _adjacent_orders4():
 
 
 def plan(tier):
-    ts = [('one', 0, None), ('one', 1, None)]
+    ts = [('one', 0, None), ('one', 1, None), ('one', '0:rev', None), ('one', '1:K2', None)]
     ts += [('wide', si, 15, None) for si in range(15)]
     ts += [('xwide', si, 7, None) for si in range(7)]
     for oi in range(6):
         for si in range(4 if tier == 'quick' else 2):
             ts.append(('mid', oi, si, 8 if tier == 'quick' else 2, None))
     adj = _adjacent_orders4()
+    # managers with a history (see sweep.make_history)
+    ts += [('mid', '2:K1', 0, 8, None), ('mid', '4:rev', 1, 8, None), ('mid', '1:K2', 2, 8, None)]
+    ts += [('t1', 'pre', '%d:rev' % adj[0], 0, 8, None), ('t1', 'img', '2:K2', 1, 8, None)]
     if tier == 'quick':
         # canonical product: all of F(4) x 16 sets on two adjacent-pair orders (pre) and one
         # adjacent + one arbitrary order (image)
